@@ -326,24 +326,31 @@ theorem decodeNat_length_le (s : List Nat) : (decodeNat s).length ≤ s.length :
 /-- the number of invalid bytes -/
 def badCount (rs : List Rune) : Nat := (rs.filter Rune.isBad).length
 
-theorem encodeNat_FFFD : encodeNat 0xFFFD = [0xEF, 0xBF, 0xBD] := by decide
+/-- what the sanitiser writes for a decoded rune is a scalar value (the replacement byte is ASCII) -/
+theorem decodeNat_scalar_out (s : List Nat) : ∀ r ∈ decodeNat s, scalar r.out := by
+  intro r hr
+  cases r with
+  | cp c => exact decodeNat_scalar s _ hr
+  | bad b => simp only [Rune.out]; decide
 
-/-- Writing every rune back (what `strings.Map` does with an identity mapping): each invalid byte grows
-    from one byte to three, everything else is reproduced. -/
-theorem encode_decode_length (s : List Nat) :
-    (encodeAll ((decodeNat s).map Rune.val)).length = s.length + 2 * badCount (decodeNat s) := by
+/-- the replacement for an invalid byte is written as one byte -/
+theorem encodeNat_repl : encodeNat Wtf.Gen.Validate.invalidRepl = [Wtf.Gen.Validate.invalidRepl] := by decide
+
+/-- Writing every rune back the way the sanitising loop of `ValidateQuery` does (a well-formed rune as its own
+    bytes, an invalid byte as the one-byte replacement) gives a text of exactly the same byte length. -/
+theorem encode_out_length (s : List Nat) :
+    (encodeAll ((decodeNat s).map Rune.out)).length = s.length := by
   induction s using decode_induction with
-  | h0 => simp [decodeNat_nil, encodeAll, badCount]
+  | h0 => simp [decodeNat_nil, encodeAll]
   | hv c t' hs ih =>
     rw [decodeNat_encodeScalar c hs]
-    simp only [encodeAll, badCount, List.map_cons, List.flatMap_cons, List.length_append, Rune.val,
-      encodeNat_of_scalar hs, Rune.isBad, List.filter_cons] at *
-    simp only [Bool.false_eq_true, if_false]
+    simp only [encodeAll, List.map_cons, List.flatMap_cons, List.length_append, Rune.out,
+      encodeNat_of_scalar hs] at *
     omega
   | hb b0 t hbad ih =>
     rw [decodeNat_bad hbad]
-    simp only [encodeAll, badCount, List.map_cons, List.flatMap_cons, List.length_append, Rune.val,
-      encodeNat_FFFD, Rune.isBad, List.filter_cons, List.length_cons, List.length_nil, if_true] at *
+    simp only [encodeAll, List.map_cons, List.flatMap_cons, List.length_append, Rune.out,
+      encodeNat_repl, List.length_cons, List.length_nil] at *
     omega
 
 /-- well-formed text is reproduced exactly -/
